@@ -6,6 +6,7 @@ Response: the dump of the desugared static expression (same format as the hook `
 Request:  parse core <source text …>     Response: `ok` when the expression maps into the core model, else `no`
 Request:  parse climb <minimal item list: atoms `pN`, operator rule names>
 Response: the climber's tree `(RULE l r)` / `pN`, or `none`
+Request:  parse derived <lt|gt|ge|le> <int: the result of cmp>     Response: true | false
 -/
 import XrayModel.Syntax
 open XrayModel.Syntax
@@ -37,6 +38,11 @@ def parseEngine (f : String) (args : List String) : String :=
       | some s => match parse s with
           | .ok e _ => if (toCore e).isSome then "ok" else "no"
           | r => showPR r
+      | none => "bad-op"
+  | "derived", [name, c] => match c.toInt? with
+      | some k => match derivedOfCmp name k with
+          | some b => toString b
+          | none => "bad-op"
       | none => "bad-op"
   | "climb", items => match climb climberInfo (items.map toItem) with
       | some t => showTree t
